@@ -53,6 +53,7 @@ type World struct {
 	panicClaims []uint64 // event nonces of pending bridge-call results whose call no longer exists
 	ibcOpen, ibcClosed   []uint64   // pending SendToFx claims forwarding over an open / a closed IBC channel
 	ibcAmount            map[uint64]string // their amount+denom strings (event attribution)
+	tokO       *lib.Token // second module-owned ERC-20 the first frame contracts hold (the token with the open IBC channel)
 	tokE       *lib.Token // module-owned ERC-20 (eth alias) the frame contracts hold and approved to the crosschain precompile
 	batched    []uint64   // per frame contract (first nBatched): id of its ERC-20 transfer that is already in a batch
 	tokEBase   map[int]*big.Int
@@ -207,6 +208,9 @@ func (w *World) setupClaims(seed int64) {
 		t, err := c.SetupModuleOwned([]string{"USDO", "USDC"}[ci], 91+ci, []string{"eth"}, ch)
 		lib.Must(err)
 		foreignStorage[t.ERC20] = true
+		if !closed {
+			w.tokO = t
+		}
 		// vouchers that were swapped into the base denom earlier are parked in the transfer module
 		vouchers := sdk.NewCoins(lib.Coin(t.IBCDenom, 10_000_000))
 		lib.Must(c.App.BankKeeper.MintCoins(c.Ctx, minttypes.ModuleName, vouchers))
@@ -232,6 +236,17 @@ func (w *World) setupClaims(seed int64) {
 		}
 	}
 	c.SetChannelClosed(c.Ctx, closedPort, closedChan, true)
+	// the first frame contracts also hold the open-channel token as ERC-20 (multi-token bridge calls)
+	liq := sdk.NewCoins(lib.Coin(w.tokO.Alias("eth").Denom, 10_000_000))
+	lib.Must(c.App.BankKeeper.MintCoins(c.Ctx, minttypes.ModuleName, liq))
+	lib.Must(c.App.BankKeeper.SendCoinsFromModuleToModule(c.Ctx, minttypes.ModuleName, "eth", liq))
+	for i := 0; i < nBatched; i++ {
+		a := frameAddr(i)
+		c.Mint(a.Bytes(), lib.Coin(w.tokO.Base, 1_000_000))
+		_, err := c.App.Erc20Keeper.ConvertCoin(c.Ctx, &erc20types.MsgConvertCoin{Coin: lib.Coin(w.tokO.Base, 1_000_000),
+			Receiver: a.Hex(), Sender: sdk.AccAddress(a.Bytes()).String()})
+		lib.Must(err)
+	}
 	all := append(append(append(append([]uint64{}, w.okClaims...), w.panicClaims...), w.ibcOpen...), w.ibcClosed...)
 	for _, n := range all {
 		if _, found := c.App.EthKeeper.GetPendingExecuteClaim(c.Ctx, n); !found {
@@ -303,6 +318,30 @@ func (w *World) fill(m *Marker) {
 		m.Target = lib.CrosschainPrecompile
 		m.Value = amountOfBit(m.Bit)
 		m.Data, err = xabi.Pack("bridgeCall", "eth", frameAddr(m.Ctx), []common.Address{}, []*big.Int{}, markerSpender(m.ID), []byte{byte(m.ID)}, big.NewInt(0), []byte{})
+	case MkBridgeTok, MkBridgeTokFail:
+		m.Target = lib.CrosschainPrecompile
+		e, o := w.tokE.ERC20, w.tokO.ERC20
+		unknown := common.HexToAddress("0x00000000000000000000000000000000deadbeef") // no token pair
+		ae, ao := big.NewInt(int64(100+m.ID)), big.NewInt(int64(400+m.ID))
+		over := big.NewInt(5_000_000) // above the balance
+		switch {
+		case m.Kind == MkBridgeTok && m.Pool == 0:
+			m.Tokens, m.Amounts = []common.Address{e}, []*big.Int{ae}
+		case m.Kind == MkBridgeTok:
+			m.Tokens, m.Amounts = []common.Address{e, o}, []*big.Int{ae, ao}
+		case m.Pool == 0:
+			m.Tokens, m.Amounts = []common.Address{unknown}, []*big.Int{ae}
+		case m.Pool == 1:
+			m.Tokens, m.Amounts = []common.Address{unknown, e}, []*big.Int{ao, ae}
+		case m.Pool == 2:
+			m.Tokens, m.Amounts = []common.Address{e, unknown, o}, []*big.Int{ae, big.NewInt(1), ao}
+		case m.Pool == 3:
+			m.Tokens, m.Amounts = []common.Address{e, o}, []*big.Int{ae, over}
+		default:
+			m.Tokens, m.Amounts = []common.Address{e}, []*big.Int{over}
+		}
+		// the refund address has no account; no msg.value (nothing journalled before the action)
+		m.Data, err = xabi.Pack("bridgeCall", "eth", markerSpender(30_000+m.ID), m.Tokens, m.Amounts, markerSpender(m.ID), []byte{byte(m.ID)}, big.NewInt(0), []byte{})
 	case MkCancel:
 		m.Target = lib.CrosschainPrecompile
 		m.Data, err = xabi.Pack("cancelSendToExternal", "eth", big.NewInt(poolID(m.Ctx)))
@@ -376,13 +415,22 @@ func (w *World) observeNatives(ctx sdk.Context, ms []*Marker, ctxs []int) (prese
 			feeOf[int64(tx.Id)] = tx.Fee.Amount.BigInt()
 		}
 	}
+	bcallTo := map[string]*crosschaintypes.OutgoingBridgeCall{} // by destination contract (unique per marker)
 	bcall := map[string]bool{} // sender/amount of outgoing bridge calls
 	w.c.App.EthKeeper.IterateOutgoingBridgeCalls(ctx, func(oc *crosschaintypes.OutgoingBridgeCall) bool {
+		bcallTo[strings.ToLower(oc.To)] = oc
 		for _, t := range oc.Tokens {
 			bcall[fmt.Sprintf("%s/%s", strings.ToLower(oc.Sender), t.Amount)] = true
 		}
 		return false
 	})
+	tokEWatch := map[int]bool{}
+	for _, m := range ms {
+		if m.Kind == MkBridgeTok || m.Kind == MkBridgeTokFail {
+			tokEWatch[m.Ctx] = true
+		}
+	}
+	tokESpent := map[int]*big.Int{} // ERC-20 (USDE) that surviving bridge calls took from each frame contract
 	delegatedBy := map[int]*big.Int{}
 	valueBy := map[int]*big.Int{}
 	for _, ci := range ctxs {
@@ -419,9 +467,7 @@ func (w *World) observeNatives(ctx sdk.Context, ms []*Marker, ctxs []int) (prese
 				leaks = append(leaks, fmt.Sprintf("marker %d: the pending claim %d was consumed although its IBC leg cannot be sent", m.ID, m.Claim))
 			}
 		case MkFeeGone:
-			if bal := w.c.ERC20BalanceOf(ctx, w.tokE.ERC20, frameAddr(m.Ctx)); bal.Cmp(w.c.ERC20BalanceOf(w.base, w.tokE.ERC20, frameAddr(m.Ctx))) != 0 {
-				leaks = append(leaks, fmt.Sprintf("marker %d: the ERC-20 balance of frame %d changed (to %s) although the fee increase was refused and its Cosmos side rolled back", m.ID, m.Ctx, bal))
-			}
+			tokEWatch[m.Ctx] = true
 		case MkExecPanic:
 			if _, pending := w.c.App.EthKeeper.GetPendingExecuteClaim(ctx, m.Claim); !pending {
 				present = append(present, m.ID)
@@ -459,6 +505,35 @@ func (w *World) observeNatives(ctx sdk.Context, ms []*Marker, ctxs []int) (prese
 			if bitSet(valueBy[m.Ctx], m.Bit) {
 				present = append(present, transferBase+m.ID)
 			}
+		case MkBridgeTok, MkBridgeTokFail:
+			if oc := bcallTo[strings.ToLower(markerSpender(m.ID).Hex())]; oc != nil {
+				present = append(present, m.ID)
+				// a kept bridge call carries ALL the tokens it was asked to carry
+				want := map[string]string{}
+				for i, t := range m.Tokens {
+					if al := w.aliasOf(t); al != "" {
+						want[strings.ToLower(al)] = m.Amounts[i].String()
+					} else {
+						want[strings.ToLower(t.Hex())] = m.Amounts[i].String()
+					}
+				}
+				got := map[string]string{}
+				for _, t := range oc.Tokens {
+					got[strings.ToLower(t.Contract)] = t.Amount.String()
+				}
+				same := len(want) == len(got)
+				for k, v := range want {
+					same = same && got[k] == v
+				}
+				if !same {
+					leaks = append(leaks, fmt.Sprintf("marker %d: the recorded outgoing bridge call carries %v, the call asked for %v", m.ID, got, want))
+				}
+				for i, t := range m.Tokens {
+					if t == w.tokE.ERC20 {
+						tokESpent[m.Ctx] = new(big.Int).Add(tokESpentOf(tokESpent, m.Ctx), m.Amounts[i])
+					}
+				}
+			}
 		case MkCancel:
 			if _, still := feeOf[poolID(m.Ctx)]; !still {
 				present = append(present, m.ID)
@@ -480,6 +555,13 @@ func (w *World) observeNatives(ctx sdk.Context, ms []*Marker, ctxs []int) (prese
 			}
 		}
 	}
+	for ci := range tokEWatch {
+		bal := w.c.ERC20BalanceOf(ctx, w.tokE.ERC20, frameAddr(ci))
+		exp := new(big.Int).Sub(w.c.ERC20BalanceOf(w.base, w.tokE.ERC20, frameAddr(ci)), tokESpentOf(tokESpent, ci))
+		if bal.Cmp(exp) != 0 {
+			leaks = append(leaks, fmt.Sprintf("the ERC-20 balance of frame %d is %s, the precompile calls whose Cosmos side survived account for %s (a refused call kept what it took through the EVM?)", ci, bal, exp))
+		}
+	}
 	for n := w.period(ctx); n > w.basePeriod; n-- {
 		present = append(present, rewardsID)
 	}
@@ -493,6 +575,23 @@ func (w *World) observeNatives(ctx sdk.Context, ms []*Marker, ctxs []int) (prese
 	}
 	sort.Ints(present)
 	return present, leaks
+}
+
+func tokESpentOf(m map[int]*big.Int, ci int) *big.Int {
+	if v, ok := m[ci]; ok {
+		return v
+	}
+	return big.NewInt(0)
+}
+
+// aliasOf: external (eth) contract of a registered ERC-20, "" if unknown
+func (w *World) aliasOf(t common.Address) string {
+	for _, tk := range []*lib.Token{w.tokE, w.tokO} {
+		if tk != nil && tk.ERC20 == t {
+			return tk.Alias("eth").Contract
+		}
+	}
+	return ""
 }
 
 // logKey identifies a precompile-emitted log independently of its position.
@@ -535,6 +634,8 @@ func eventMarkers(evs sdk.Events, ms []*Marker) []int {
 			byAmount[fmt.Sprint(claimAmount(m.Claim))+fxtypes.DefaultDenom] = m.ID
 		case MkExecIBC:
 			byPrefix[fmt.Sprint(claimAmount(m.Claim))] = m.ID
+		case MkBridgeTok:
+			byPrefix[m.Amounts[0].String()] = m.ID
 		case MkCancel:
 			byCancel[fmt.Sprint(poolID(m.Ctx))] = m.ID
 		}
